@@ -367,7 +367,7 @@ Definition an_wsub (a b : ares) : aout :=
    evalWrapper (functions/expr_bridge.go EvaluateExpression, then expr.EvaluateValueWithNull), as observed and
    compared on every run:
      - numeric rule: operands convert to numbers (bool = 0 / 1), a NULL / text / missing operand makes the
-       whole item NULL;
+       whole item NULL - except that expr-lang itself joins text + text (an_wtyped);
      - EXCEPT a parenthesis-free sum  x1 + x2 + ... + xn  whose operands are all calls / columns present in the
        row: when every operand is an int / float64 the sum, otherwise the bridge's "string concatenation"
        fallback joins cast.ToString of the operands (NULL = "", true = "true"): NULL + 3 = "3".
@@ -430,6 +430,26 @@ Definition an_wstr (v : aval) : bytes :=
   | AVBool b => if b then an_true_txt else an_false_txt
   end.
 
+(* expr-lang proper (tried before the fallbacks): numbers with numbers, and + also joins text with text; any
+   other pairing (NULL, bool, text with number) is a run-time error *)
+Inductive awval := WVNum (z : Z) | WVStr (s : bytes).
+
+Definition an_wtyped_leaf (v : aval) : option awval :=
+  match v with AVInt z | AVFlt z => Some (WVNum z) | AVStr s => Some (WVStr s) | _ => None end.
+
+Fixpoint an_wtyped (vals : list ares) (r : arow) (w : awexp) : option awval :=
+  match w with
+  | WSelf i => match nth_error vals i with Some (ARV v) => an_wtyped_leaf v | _ => None end
+  | WCol n => match alookup n r with Some v => an_wtyped_leaf v | None => None end
+  | WNum z => Some (WVNum z)
+  | WBin op a b =>
+      match an_wtyped vals r a, an_wtyped vals r b with
+      | Some (WVNum p), Some (WVNum q) => Some (WVNum (an_wop op p q))
+      | Some (WVStr x), Some (WVStr y) => match op with WAdd => Some (WVStr (x ++ y)) | _ => None end
+      | _, _ => None
+      end
+  end.
+
 Definition an_weval (sql : bool) (w : awexp) (vals : list ares) (r : arow) : aout :=
   match an_wflat w with
   | Some ls =>
@@ -442,7 +462,12 @@ Definition an_weval (sql : bool) (w : awexp) (vals : list ares) (r : arow) : aou
                     else AOV (AVStr (concat (map an_wstr vs)))
           end
       end
-  | None => match an_wnumeval vals r w with Some z => AOV (AVFlt z) | None => AOV AVNull end
+  | None =>
+      match an_wtyped vals r w with
+      | Some (WVNum z) => AOV (AVFlt z)
+      | Some (WVStr t) => AOV (AVStr t)
+      | None => match an_wnumeval vals r w with Some z => AOV (AVFlt z) | None => AOV AVNull end
+      end
   end.
 
 (* every call of the item is applied to its own state, whatever the other calls return *)
